@@ -106,6 +106,8 @@ def cases(unit):
     if unit.get('long'):
         # sequences far longer than any parameter, and parameters beyond the interpreter's small-int range
         yield {'op': ['sort'], 'mode': 'plain', 'seq': 'big'}
+        for seq in spaces.sequences([None, 0, 1], 4):
+            yield {'op': ['to_deque'], 'mode': 'plain', 'seq': seq}
         for seq in spaces.sequences([0, 1, 2], 6):
             yield {'op': ['distinct'], 'mode': 'tuples', 'seq': seq}
         for o in OPS:
@@ -163,6 +165,19 @@ def run_case(case, acc):
         return []
     o, mode, seq = case['op'], case['mode'], list(case['seq'])
     out = []
+    if o[0] == 'to_deque':
+        # to_deque() buffers the items and emits them unchanged, in order, when the source completes; extend=True flattens
+        import rx
+        import rxsci as rs
+        from ..drivers import Sink
+        for extend, items, exp in ((False, seq, seq), (True, [[x, x] for x in seq], [y for x in seq for y in (x, x)])):
+            sink = Sink()
+            sink.subscribe_to(rx.from_(items).pipe(rs.data.to_deque(extend=extend)))
+            acc.evals += 1
+            acc.traces += 1
+            if sink.error is not None or sink.completed != 1 or sink.items != exp:
+                return [viol(o, 'plain', 'to_deque-differs', {'extend': extend, 'items': items, 'observed': sink.items})]
+        return []
     if mode == 'tuples':
         # values whose hashes collide although they differ: ('a', -1) / ('a', -2) ; equal but distinct objects
         pool = [tuple(['a', -1]), tuple(['a', -2]), tuple(['b', -1])]
